@@ -100,6 +100,42 @@ ProjC(e) == << <<"panic", e.p = 0>>,
                <<"base_cell", e.p = 1 \/ e.bc \in {c[1] : c \in StarFace(1, e.f1)}>> >>
 ProjBadC(e) == << <<"nopanic_proj", e.pp = 1>>, <<"nopanic_unproj", e.pu = 1>> >>
 
+(* ---- cell geometry accessors (C03) ---- *)
+TolCell == 20            \* 2e-5 cell, in units of 1e-6 cell (bridge precision at depth 29 is ~1e-6 cell)
+VOrder == <<"S", "E", "N", "W">>
+CellGeoC(e) == LET N == Pow2(e.d)
+                   c == e.c
+  IN IF e.p = 1 THEN << <<"panic", FALSE>> >> ELSE
+     << <<"centre", Len(e.cf) = 3 /\ FaceKind(e.cf) = "cell" /\ CellOfFace(e.cf) = c /\ e.cdev <= TolCell /\ e.hc = c>>,
+        <<"vertices", Len(e.vf) = 4 /\ \A k \in 1..4 : FaceKind(e.vf[k]) = "node" /\ Canon(N, CellOfFace(e.vf[k])) = Vtx(N, c, VOrder[k])>>,
+        <<"accessors_agree", e.vsame = 1>>,
+        <<"sph_coo_inside", e.sph_bad = 0 /\ e.sph_dev <= TolCell>>,
+        <<"path_and_grid_in_closure", Len(e.pf) = e.npath + e.ngrid /\ \A k \in 1..Len(e.pf) : c \in StarFace(N, e.pf[k])>>,
+        <<"path_on_border", \A k \in 1..e.npath : FaceKind(e.pf[k]) # "cell">>,
+        <<"nudged_inwards_hash_back", e.nudged_bad = 0>> >>
+CellBadC(e) == << <<"nopanic", \A k \in 1..Len(e.ps) : e.ps[k] = 1>> >>
+HashDxDyC(e) == LET N == Pow2(e.d) IN
+  IF e.p = 1 THEN << <<"panic", FALSE>> >> ELSE
+  << <<"range", InRange(N, e.r)>>, <<"contains", e.r \in StarFace(N, e.f)>>,
+     <<"same_as_hash", e.fk # "cell" \/ e.r = e.rh>>,
+     <<"offsets", e.dx \in (-TolOff)..(1000000 + TolOff) /\ e.dy \in (-TolOff)..(1000000 + TolOff)>>,
+     <<"recovers_position", e.rec <= TolPos>>,
+     <<"sph_coo_inverts", e.back = -1 \/ (e.back >= 0 /\ e.back <= TolPos)>> >>
+(* ---- bilinear interpolation (C19) ---- *)
+TolW == 2                \* weights in units of 2^-20
+BilinearC(e) == LET N == Pow2(e.d)
+                    c == e.c
+  IN IF e.p = 1 THEN << <<"panic", FALSE>> >> ELSE
+  << <<"contains", c \in StarFace(N, e.f)>>,
+     <<"cells_around", Len(e.cells) = 4 /\ \A k \in 1..4 : e.cells[k] = c \/ e.cells[k] \in Neigh(N, c)>>,
+     <<"cell_present", \E k \in 1..4 : e.cells[k] = c>>,
+     <<"weights", (\A k \in 1..4 : e.w[k] >= -TolW /\ e.w[k] <= 1048576 + TolW) /\ e.sum \in -2..2>>,
+     <<"centre_weight", e.ctr = 0 \/ \E k \in 1..4 : e.cells[k] = c /\ e.w[k] >= 1048576 - 64>>,
+     <<"barycentre", e.bary = -1 \/ e.bary <= TolCell>>,
+     (* a cell listed twice stands for a missing corner (next to a 3-cell point): one of the two carries weight 0 *)
+     <<"missing_corner", \A k, m \in 1..4 : (k < m /\ e.cells[k] = e.cells[m]) => (e.cells[k] = c /\ (e.w[k] = 0 \/ e.w[m] = 0)
+                                              /\ \E d \in Cardinals : NeighAt(N, c, d) = {})>> >>
+
 Clauses(e) == CASE e.ev = "hash" -> HashC(e)
                 [] e.ev = "hash_bad" -> HashBadC(e)
                 [] e.ev = "hier" -> HierC(e)
@@ -112,6 +148,10 @@ Clauses(e) == CASE e.ev = "hash" -> HashC(e)
                 [] e.ev = "ring_hash" -> RingHashC(e)
                 [] e.ev = "ring_center" -> RingCenterC(e)
                 [] e.ev = "ring_bad" -> RingBadC(e)
+                [] e.ev = "cellgeo" -> CellGeoC(e)
+                [] e.ev = "cell_bad" -> CellBadC(e)
+                [] e.ev = "hash_dxdy" -> HashDxDyC(e)
+                [] e.ev = "bilinear" -> BilinearC(e)
                 [] e.ev = "proj" -> ProjC(e)
                 [] e.ev = "proj_bad" -> ProjBadC(e)
                 [] e.ev = "zoc" -> ZocC(e)
